@@ -27,6 +27,7 @@ import (
 	"math/big"
 	"math/rand"
 	"net"
+	"net/url"
 	"os"
 	"path/filepath"
 	"sort"
@@ -345,6 +346,19 @@ func diffFields(y, s *x509.Certificate, raw bool) []string {
 	}
 	if !y.NotAfter.Equal(s.NotAfter) {
 		add("NotAfter")
+	}
+	// names: the alternative names as well
+	if fmt.Sprint(y.DNSNames) != fmt.Sprint(s.DNSNames) {
+		add("DNSNames")
+	}
+	if fmt.Sprint(y.EmailAddresses) != fmt.Sprint(s.EmailAddresses) {
+		add("EmailAddresses")
+	}
+	if fmt.Sprint(y.IPAddresses) != fmt.Sprint(s.IPAddresses) {
+		add("IPAddresses")
+	}
+	if fmt.Sprint(y.URIs) != fmt.Sprint(s.URIs) {
+		add("URIs")
 	}
 	if len(y.Extensions) != len(s.Extensions) {
 		add("Extensions(len)")
@@ -758,6 +772,21 @@ func runCertificates(c *core.Ctx) []genCert {
 			t.PolicyIdentifiers = []asn1.ObjectIdentifier{{2, 23, 140, 1, 2, 1}, {1, 3, 6, 1, 4, 1, 41482, 13, 1}}
 			t.ExtraExtensions = []pkix.Extension{{Id: asn1.ObjectIdentifier{1, 3, 6, 1, 4, 1, 41482, 3, 3}, Critical: false, Value: []byte{5, 2, 7}}}
 		}},
+		{"alternative-names", func(t *x509.Certificate) {
+			u1, _ := url.Parse("https://device.example.com/piv/9a")
+			u2, _ := url.Parse("urn:uuid:6e8bc430-9c3a-11d9-9669-0800200c9a66")
+			t.URIs = []*url.URL{u1, u2}
+			t.IPAddresses = []net.IP{net.ParseIP("192.0.2.7"), net.ParseIP("2001:db8::7")}
+			t.DNSNames = []string{"piv.example.com"}
+			t.EmailAddresses = []string{"piv@example.com"}
+		}},
+		{"alternative-names-uri-only", func(t *x509.Certificate) {
+			u1, _ := url.Parse("spiffe://example.org/yubikey/1234")
+			t.URIs = []*url.URL{u1}
+		}},
+		{"alternative-names-ip-only", func(t *x509.Certificate) {
+			t.IPAddresses = []net.IP{net.ParseIP("10.0.0.1")}
+		}},
 	}
 	if c.Thorough() {
 		profiles = append(profiles, struct {
@@ -782,6 +811,9 @@ func runCertificates(c *core.Ctx) []genCert {
 		for gi, g := range signers {
 			for pi, p := range profiles {
 				if !c.Thorough() && (si+gi+pi)%3 != 0 && !(p.name == "attestation" && gi == 0) {
+					continue
+				}
+				if !c.Thorough() && strings.HasPrefix(p.name, "alternative-names") && !(gi < 2 && (si == 0 || si == 4)) { // a few subjects are enough on the quick tier
 					continue
 				}
 				if !c.Thorough() && strings.Contains(s.name, "-e=") && gi > 1 { // unusual exponents: two signers are enough on the quick tier
@@ -867,7 +899,12 @@ func runCertificates(c *core.Ctx) []genCert {
 			c.Native("yubiattest.ParseCertificate rejects a well-formed certificate that crypto/x509 accepts: "+yerr.Error(), in)
 			continue
 		}
-		if d := diffFields(y, s, true); len(d) > 0 {
+		if d := diffFields(y, s, true); len(d) == 1 && d[0] == "URIs" && len(y.URIs) == 0 && len(s.URIs) > 0 {
+			// known finding K5: the lenient parser (a fork of the pre-Go-1.10 parser) does not decode
+			// uniformResourceIdentifier entries of subjectAltName; everything else about the certificate agrees
+			c.KnownFindingProbe("K5-san-uri", "a URI entry in subjectAltName is not decoded by yubiattest.ParseCertificate (Certificate.URIs stays empty where crypto/x509 reports the URIs)",
+				map[string]interface{}{"certificate": gc.name, "stdlib_URIs": fmt.Sprint(s.URIs), "lenient_URIs": fmt.Sprint(y.URIs)})
+		} else if len(d) > 0 {
 			c.Native("yubiattest.ParseCertificate disagrees with crypto/x509 on "+strings.Join(d, ","), in)
 		} else {
 			c.NativeCheck(1)
@@ -900,7 +937,10 @@ func runCertificates(c *core.Ctx) []genCert {
 			case y4err != nil:
 				c.Native("yubiattest.ParseCertificate rejects a certificate with unique identifiers that crypto/x509 accepts: "+y4err.Error(), in4)
 			default:
-				if d := diffFields(y4, s4, true); len(d) > 0 {
+				if d := diffFields(y4, s4, true); len(d) == 1 && d[0] == "URIs" && len(y4.URIs) == 0 && len(s4.URIs) > 0 {
+					c.KnownFindingProbe("K5-san-uri", "a URI entry in subjectAltName is not decoded by yubiattest.ParseCertificate (Certificate.URIs stays empty where crypto/x509 reports the URIs)",
+						map[string]interface{}{"certificate": gc.name + " (unique identifiers added)", "stdlib_URIs": fmt.Sprint(s4.URIs)})
+				} else if len(d) > 0 {
 					c.Native("yubiattest.ParseCertificate disagrees with crypto/x509 on "+strings.Join(d, ",")+" (unique identifiers present)", in4)
 				} else {
 					c.NativeCheck(1)
